@@ -7,7 +7,7 @@
            fixID (to_parsed, is_notification); null params are read as absent by the member parser
            itself: the denotation is [canon (norm m)]. *)
 From Coq Require Import List NArith ZArith Bool Arith Lia.
-From JV Require Import Bytes Sort Json JsonProofs JsonPrint Msg Wire WireProofs WireSpecs.
+From JV Require Import Bytes Sort Json JsonProofs JsonPrint JsonTree Msg Wire WireProofs WireSpecs.
 Import ListNotations.
 Local Open Scope N_scope.
 
@@ -369,3 +369,237 @@ Proof.
   split; [constructor; [apply null_id_reply_rt | constructor; [apply null_params_req_rt | constructor]]|].
   eexists. split; [vm_compute; reflexivity|]. vm_compute. reflexivity.
 Qed.
+
+(* ------------------------------------------------------------------------- *)
+(* Part B: null params, the batch flag, valid JSON, the ids that can be echoed *)
+
+(* B.1: a client whose params value marshals to null writes "params":null (marshalParams lets
+   null through); the member parser reads it as no params at all *)
+Theorem params_null_is_absent : forall m b, msg_rt' m -> j_method m <> [] -> j_params m = null_bytes -> enc_msg m = Some b ->
+  (exists pre, b = pre ++ s_params ++ null_bytes ++ [125]) /\
+  parse_member b = canon (set_params [] m) /\ j_params (parse_member b) = [] /\
+  parse_msgs b = InMsgs false [canon (set_params [] m)].
+Proof.
+  intros m b Hrt Hm Hp Henc. destruct (parse_back' m b Hrt Henc) as (A & B & _ & _ & _ & F).
+  assert (Hn : norm m = set_params [] m) by (unfold norm; rewrite Hp; reflexivity).
+  rewrite Hn in A, B. split; [|split; [exact A | split; [exact (F Hp) | exact B]]].
+  unfold enc_msg, enc_msg_gen in Henc. destruct (beq_spec (j_method m) []) as [E|_]; [contradiction|]. cbn [negb] in Henc.
+  rewrite Hp in Henc. change (beq null_bytes []) with false in Henc. cbv iota in Henc. apply some_eq in Henc. subst b.
+  exists ((s_head ++ (if beq (j_id m) [] then [] else s_id ++ j_id m)) ++ s_method ++ escape_string (j_method m)).
+  rewrite <- !app_assoc. reflexivity.
+Qed.
+
+Example params_null_is_absent_nonvacuous :
+  msg_rt' null_params_req /\ j_method null_params_req <> [] /\ j_params null_params_req = null_bytes /\
+  exists b, enc_msg null_params_req = Some b.
+Proof. split; [apply null_params_req_rt|]. split; [discriminate|]. split; [reflexivity|]. eexists; vm_compute; reflexivity. Qed.
+
+(* B.2: client batches have the flag unset: with zero or several members the record is an array
+   all the same *)
+Theorem parse_back_batch_flag : forall ms b, length ms <> 1%nat ->
+  Forall (msg_rt_at' 1) ms -> enc_msgs false ms = Some b ->
+  enc_msgs true ms = Some b /\
+  parse_msgs b = InMsgs true (map (fun m => canon (norm m)) ms) /\
+  parse_requests b = Parsed (map (fun m => to_parsed (canon (norm m))) ms).
+Proof.
+  intros ms b Hl HF Henc. split; [|exact (parse_back_batch' false ms b (or_intror Hl) HF Henc)].
+  rewrite (enc_msgs_array true ms (or_introl eq_refl)). rewrite (enc_msgs_array false ms (or_intror Hl)) in Henc. exact Henc.
+Qed.
+
+Example parse_back_batch_flag_nonvacuous :
+  length [null_id_reply; null_params_req] <> 1%nat /\ Forall (msg_rt_at' 1) [null_id_reply; null_params_req] /\
+  (exists b, enc_msgs false [null_id_reply; null_params_req] = Some b) /\
+  (exists b, enc_msgs false [] = Some b /\ parse_msgs b = InMsgs true []).
+Proof.
+  split; [discriminate|]. split; [exact (proj1 parse_back_batch'_nonvacuous)|].
+  split; [eexists; vm_compute; reflexivity|]. eexists. split; [vm_compute; reflexivity|]. vm_compute. reflexivity.
+Qed.
+
+(* B.3: valid JSON, explicitly *)
+Lemma arr_valid bl : (forall v, In v bl -> tight_at 1 v = true) -> valid (arr_text bl) = true.
+Proof. intros H. apply tight_valid. apply arr_tight; [exact depth_le_1 | exact H]. Qed.
+
+Theorem valid_json_msg : forall m b, msg_rt' m -> enc_msg m = Some b -> valid b = true.
+Proof. intros m b Hrt Henc. exact (tight_valid _ (enc_tight' 0 m b depth_le_2 Hrt Henc)). Qed.
+
+Theorem valid_json_msgs : forall batch ms b, Forall (msg_rt_at' 1) ms -> enc_msgs batch ms = Some b -> valid b = true.
+Proof.
+  intros batch ms b HF Henc.
+  assert (Harr : forall b, match enc_all ms with Some bl => Some (arr_text bl) | None => None end = Some b -> valid b = true).
+  { intros b0 H0. destruct (enc_all ms) as [bl|] eqn:E; [|discriminate]. apply some_eq in H0. subst b0.
+    pose proof (enc_all_spec _ _ E) as H2. apply arr_valid. clear E Henc.
+    induction H2 as [|m b1 ms' bl' Hb _ IH]; intros v Hin; [contradiction|].
+    inversion HF as [|? ? Hm HF']; subst. destruct Hin as [<-|Hin]; [|exact (IH HF' v Hin)].
+    exact (enc_tight' 1 m b1 depth_le_3 Hm Hb). }
+  rewrite enc_msgs_shape in Henc. destruct ms as [|m [|m2 ms2]]; try exact (Harr b Henc).
+  destruct batch; [exact (Harr b Henc)|]. inversion HF as [|? ? Hm _]; subst.
+  exact (valid_json_msg m b (msg_rt_at'_mono 1 0 m ltac:(lia) Hm) Henc).
+Qed.
+
+(* ... and on the single-line domain msg_ok', under the nesting bound: what json.Marshal returned
+   (a compacted text) is one tight value; it is valid where it sits when its nesting depth leaves
+   room for the envelope (encoding/json's limit of 10000 counts the envelope) *)
+Definition nest_ok (d : N) (m : jmsg) : Prop :=
+  nest (j_params m) + N.succ d <= max_depth /\ nest (j_result m) + N.succ d <= max_depth /\
+  (forall e q, j_error m = Some e -> compact (we_data e) = Some q -> nest q + N.succ (N.succ d) <= max_depth).
+
+Lemma marshalled_tight d p : marshalled p -> nest p + d <= max_depth -> tight_at d p = true.
+Proof. intros [[p0 H] _] Hn. exact (tight_shift p d (compact_tight _ _ H) Hn). Qed.
+
+Lemma marshal_error_tight d e b : N.succ d <= max_depth ->
+  (we_data e = [] \/ exists q, compact (we_data e) = Some q /\ tight_at (N.succ d) q = true) ->
+  marshal_error e = Some b -> tight_at d b = true.
+Proof.
+  intros Hd Hdat Hm.
+  destruct (marshal_error_text e b Hm) as (q & Hq & Hb).
+  assert (Hcq : exists cq, beq (we_data e) [] = false -> PV (N.succ d) q cq []).
+  { destruct (beq (we_data e) []) eqn:Ed; [exists CNull; discriminate|].
+    destruct Hdat as [Hdat|(q' & Hq' & Ht)]; [rewrite Hdat in Ed; discriminate Ed|].
+    rewrite (Hq eq_refl) in Hq'. injection Hq' as <-. destruct (tight_PV _ _ Ht) as [cq Hcq]. exists cq. intros _. exact Hcq. }
+  destruct Hcq as [cq Hcq]. specialize (Hb cq).
+  assert (HF : Forall (item_ok (N.succ d)) (err_items e q cq)).
+  { unfold err_items. apply Forall_app. split; [|apply Forall_app; split].
+    - constructor; [|constructor]. split; [reflexivity | apply z_dec_PV].
+    - destruct (beq (we_msg e) []); constructor; [|constructor]. split; [reflexivity|].
+      pose proof (escape_string_PV (we_msg e) (N.succ d) []) as H. rewrite app_nil_r in H. exact H.
+    - destruct (beq (we_data e) []) eqn:Ed; constructor; [|constructor]. split; [reflexivity | exact (Hcq eq_refl)]. }
+  assert (Hne : err_items e q cq <> []) by (unfold err_items; discriminate).
+  pose proof (obj_PV d _ [] Hne Hd HF) as Hpv. rewrite app_nil_r, <- Hb in Hpv. exact (PV_tight _ _ _ Hpv).
+Qed.
+
+Lemma enc_error_tight d e eb : N.succ d <= max_depth ->
+  (forall q, compact (we_data e) = Some q -> nest q + N.succ d <= max_depth) ->
+  enc_error e = Some eb -> tight_at d eb = true.
+Proof.
+  intros Hd Hn He. destruct (marshal_error e) as [b|] eqn:Em.
+  - rewrite (enc_error_marshal e b Em) in He. apply some_eq in He. subst eb.
+    apply (marshal_error_tight d e b Hd); [|exact Em].
+    destruct (beq_spec (we_data e) []) as [E|E]; [left; exact E|]. right.
+    unfold marshal_error in Em. destruct (beq_spec (we_data e) []) as [E'|_]; [contradiction|].
+    destruct (compact (we_data e)) as [q|] eqn:Ec; [|discriminate]. exists q. split; [reflexivity|].
+    exact (tight_shift q _ (compact_tight _ _ Ec) (Hn q eq_refl)).
+  - rewrite (enc_error_fallback e Em) in He. apply (marshal_error_tight d (drop_data e) eb Hd); [left; reflexivity | exact He].
+Qed.
+
+Lemma ok_fields_tight d m eb : N.succ (N.succ d) <= max_depth -> msg_ok' m -> nest_ok d m ->
+  (forall e, j_error m = Some e -> negb (beq (j_method m) []) = false -> negb (beq (j_result m) []) = false -> enc_error e = Some eb) ->
+  forall kv, In kv (msg_fields m eb) -> plain_key (fst kv) = true /\ tight_at (N.succ d) (snd kv) = true.
+Proof.
+  intros Hd [Om Oi Op Or Oe] (Np & Nr & Ne) He kv. unfold msg_fields.
+  assert (Hi : beq (j_id m) [] = false -> tight_at (N.succ d) (j_id m) = true).
+  { intros Hb. destruct Oi as [Oi|[Oi|[Oi _]]]; [rewrite Oi in Hb; discriminate | rewrite Oi; apply null_tight | exact (lit_tight _ _ Oi)]. }
+  assert (Hp : beq (j_params m) [] = false -> tight_at (N.succ d) (j_params m) = true).
+  { intros Hb. destruct Op as [Op|Op]; [rewrite Op in Hb; discriminate | exact (marshalled_tight _ _ Op Np)]. }
+  assert (Hr : negb (beq (j_result m) []) = true -> tight_at (N.succ d) (j_result m) = true).
+  { intros Hb. destruct Or as [Or|Or]; [rewrite Or in Hb; discriminate | exact (marshalled_tight _ _ Or Nr)]. }
+  assert (Hee : forall e, j_error m = Some e -> negb (beq (j_method m) []) = false -> negb (beq (j_result m) []) = false ->
+                 tight_at (N.succ d) eb = true).
+  { intros e Ee Em Er. apply (enc_error_tight (N.succ d) e eb Hd); [|exact (He e Ee Em Er)]. intros q Hq. exact (Ne e q Ee Hq). }
+  destruct (beq (j_id m) []) eqn:Ei; destruct (negb (beq (j_method m) [])) eqn:Em;
+    try destruct (beq (j_params m) []) eqn:Ep; try destruct (negb (beq (j_result m) [])) eqn:Er;
+    try destruct (j_error m) as [e|] eqn:Ee; cbn [app In];
+    intros H; repeat (destruct H as [<-|H]); try contradiction; cbn [fst snd]; split; try reflexivity;
+    try (apply Hi; reflexivity); try (apply Hp; reflexivity); try (apply Hr; reflexivity);
+    try (apply (proj2 (unmarshal_string_escape _))); try (apply (Hee e eq_refl eq_refl eq_refl)).
+  all: exact (lit_tight _ _ eq_refl).
+Qed.
+
+Lemma ok_enc_tight d m b : N.succ (N.succ d) <= max_depth -> msg_ok' m -> nest_ok d m -> enc_msg m = Some b -> tight_at d b = true.
+Proof.
+  intros Hd Hok Hn Henc. destruct (enc_msg_fields _ _ Henc) as (eb & -> & He).
+  apply obj_tight_spec; [apply msg_fields_ne' | lia | exact (ok_fields_tight d m eb Hd Hok Hn He)].
+Qed.
+
+Theorem valid_json_ok : forall batch ms, Forall msg_ok' ms -> Forall (nest_ok 1) ms ->
+  exists b, enc_msgs batch ms = Some b /\ valid b = true /\ (forall c, In c b -> 32 <= c) /\ valid_utf8 b = true.
+Proof.
+  intros batch ms Hok Hn. destruct (single_line_msgs' batch ms Hok) as (b & Henc & Hl & Hu). exists b.
+  split; [exact Henc|]. split; [|split; assumption].
+  assert (Harr : forall b, match enc_all ms with Some bl => Some (arr_text bl) | None => None end = Some b -> valid b = true).
+  { intros b0 H0. destruct (enc_all ms) as [bl|] eqn:E; [|discriminate]. apply some_eq in H0. subst b0.
+    pose proof (enc_all_spec _ _ E) as H2. apply arr_valid. clear E Henc.
+    induction H2 as [|m b1 ms' bl' Hb _ IH]; intros v Hin; [contradiction|].
+    inversion Hok as [|? ? Hm Hok']; subst. inversion Hn as [|? ? Hnm Hn']; subst.
+    destruct Hin as [<-|Hin]; [|exact (IH Hok' Hn' v Hin)].
+    exact (ok_enc_tight 1 m b1 depth_le_3 Hm Hnm Hb). }
+  rewrite enc_msgs_shape in Henc. destruct ms as [|m [|m2 ms2]]; try exact (Harr b Henc).
+  destruct batch; [exact (Harr b Henc)|]. inversion Hok as [|? ? Hm _]; subst. inversion Hn as [|? ? (N1 & N2 & N3) _]; subst.
+  apply tight_valid. apply (ok_enc_tight 0 m b depth_le_2 Hm); [|exact Henc].
+  split; [lia|]. split; [lia|]. intros e q He Hq. specialize (N3 e q He Hq). lia.
+Qed.
+
+Example valid_json_ok_nonvacuous :
+  Forall msg_ok' [null_id_reply; good_rsp] /\ Forall (nest_ok 1) [null_id_reply; good_rsp].
+Proof.
+  split; [constructor; [exact (proj1 single_line_msgs'_nonvacuous) | constructor; [|constructor]]|].
+  - constructor; try (left; reflexivity); try reflexivity.
+    + right; right; split; reflexivity.
+    + right. split; [exists [116; 114; 117; 101]; vm_compute; reflexivity | reflexivity].
+    + intros e He; discriminate He.
+  - constructor; [|constructor; [|constructor]]; (split; [vm_compute; discriminate|]; split; [vm_compute; discriminate|]);
+      intros e q He Hq; cbn in He; try discriminate He. injection He as <-. vm_compute in Hq. discriminate Hq.
+Qed.
+
+(* B.4: every id the member parser accepts - hence every id a server can echo - is null, a string
+   literal or a number literal: rt'_id covers them all *)
+Lemma last_wins_in l kv : In kv (last_wins l) -> In kv l.
+Proof.
+  induction l as [|[k v] r IH]; cbn [last_wins]; [auto|].
+  destruct (existsb (fun p => beq (fst p) k) r); intros H; [right; exact (IH H)|].
+  destruct H as [H|H]; [left; exact H | right; exact (IH H)].
+Qed.
+
+Lemma raw_members_trees data ms : raw_members data = Some ms ->
+  forall kv, In kv ms -> exists c, snd kv = ctext c [] /\ cwf 1 c = true.
+Proof.
+  unfold raw_members. destruct (parse_doc data) as [[[w c] w1]|] eqn:E; [|discriminate].
+  pose proof (parse_doc_wf _ _ _ _ E) as Hwf.
+  destruct c; try discriminate; intros H; injection H as <-; [intros kv []|].
+  rewrite cwf_obj in Hwf. apply andb_true_iff in Hwf as [_ Hms]. rewrite forallb_forall in Hms.
+  intros kv Hin. apply in_map_iff in Hin as (m & <- & Hm). specialize (Hms m Hm). unfold mem_wf in Hms.
+  apply andb_true_iff in Hms as [Hms _]. apply andb_true_iff in Hms as [_ H5].
+  exists (snd (fst (snd m))). split; [reflexivity | exact H5].
+Qed.
+
+Lemma valid_id_tree c d : cwf d c = true -> is_valid_id (ctext c []) = true ->
+  ctext c [] = null_bytes \/ is_str_lit (ctext c []) = true \/ is_num_lit (ctext c []) = true.
+Proof.
+  intros Hwf Hv. destruct c; unfold ctext in *; cbn [cprint] in *.
+  - left. reflexivity.
+  - vm_compute in Hv. discriminate Hv.
+  - vm_compute in Hv. discriminate Hv.
+  - right. right. rewrite app_nil_r. exact Hwf.
+  - right. left. cbn [cwf] in Hwf. cbn [is_str_lit]. change (34 =? 34) with true. cbn [andb].
+    change (body ++ [34]) with (body ++ 34 :: []). apply body_okb_spec in Hwf. rewrite Hwf. reflexivity.
+  - cbn [is_valid_id is_null beq null_bytes N.eqb Pos.eqb andb orb is_digit N.leb N.compare Pos.compare Pos.compare_cont] in Hv. discriminate Hv.
+  - cbn [is_valid_id is_null beq null_bytes N.eqb Pos.eqb andb orb is_digit N.leb N.compare Pos.compare Pos.compare_cont] in Hv. discriminate Hv.
+Qed.
+
+Theorem ids_echoed_are_literals : forall data,
+  let i := j_id (parse_member data) in
+  i = [] \/ i = null_bytes \/ is_str_lit i = true \/ is_num_lit i = true.
+Proof.
+  intros data. cbv zeta. unfold parse_member, parse_member_ord.
+  destruct (member_fields data) as [fs|] eqn:E; [|left; reflexivity].
+  destruct (member_fields_wf _ _ E) as [Hnd Hne].
+  rewrite (member_id_echo fs Hnd Hne).
+  destruct (lookup k_id fs) as [v|] eqn:El; [|left; reflexivity].
+  destruct (is_valid_id v) eqn:Ev; [|left; reflexivity]. right.
+  unfold member_fields in E. destruct (raw_members data) as [ms|] eqn:Er; [|discriminate]. injection E as <-.
+  destruct (raw_members_trees _ _ Er _ (last_wins_in _ _ (lookup_in _ _ _ El))) as (c & Hc & Hwf). cbn [snd] in Hc. subst v.
+  exact (valid_id_tree c 1 Hwf Ev).
+Qed.
+
+(* ... so the reply that echoes the id of ANY parsed member is inside the round-trip domain *)
+Corollary echoed_id_rt : forall data, j_id (parse_member data) = [] \/ id_rt' (j_id (parse_member data)).
+Proof.
+  intros data. destruct (ids_echoed_are_literals data) as [H|[H|[H|H]]]; [left; exact H | right; left; exact H | |];
+    right; right; rewrite H; rewrite ?orb_true_r; reflexivity.
+Qed.
+
+Example ids_echoed_nonvacuous :
+  j_id (parse_member [123; 34; 105; 100; 34; 58; 110; 117; 108; 108; 125]) = null_bytes /\
+  j_id (parse_member [123; 34; 105; 100; 34; 58; 34; 120; 34; 125]) = [34; 120; 34] /\
+  j_id (parse_member [123; 34; 105; 100; 34; 58; 45; 49; 125]) = [45; 49] /\
+  j_id (parse_member [123; 34; 105; 100; 34; 58; 116; 114; 117; 101; 125]) = [].
+Proof. repeat split; vm_compute; reflexivity. Qed.
